@@ -111,6 +111,10 @@ def check(repo: Repo, rep: Report) -> None:
                emitted_at_eq["take_last_with_time_"] != emitted_at_eq["skip_last_with_time_"],
                "take_last_with_time and skip_last_with_time both keep (or both drop) the element whose age equals the duration")
     # timeout
+    from . import sync_common as SY
+    rep.rule("X3-fallback-survives", "the fallback subscription stored by the timer is never replaced by the late store of another subscription", floor=2)
+    for rel_, q_ in ((f"{O}_timeout.py", "timeout_.subscribe"), (f"{O}_timeoutwithmapper.py", "timeout_with_mapper_.timeout_with_mapper.subscribe")):
+        SY.rule_no_serial_clobber(rep, "X3-fallback-survives", repo.fn(rel_, q_))
     t = repo.fn(f"{O}_timeout.py", "timeout_.subscribe")
     act = t.find("create_timer.action")
     rep.require(act is not None, "timeout_ timer action")
